@@ -36,7 +36,7 @@ fn gen_final(ctx: &mut Ctx, method: &str) -> RespPlan {
             3 => (ClSpec::Num(0), None),
             _ => (ClSpec::Absent, None),
         };
-        let location = if (300..400).contains(&status) && status != 304 && ctx.chance(3, 4) { vec![ctx.pick(&["/next", "http://b.test/x", "../y?z=1", "https://a.test/s"]).to_string()] } else { vec![] };
+        let location = if ((300..400).contains(&status) && status != 304 && ctx.chance(3, 4)) || (!(300..400).contains(&status) && ctx.chance(1, 8)) { vec![ctx.pick(&["/next", "http://b.test/x", "../y?z=1", "https://a.test/s"]).to_string()] } else { vec![] };
         let spec = RespSpec { status, http11, cl, te, conn: if ctx.chance(1, 4) { vec!["close"] } else { vec![] }, generic_fields: ctx.range(0, 2), location, location_raw: vec![], close_len: ctx.range(0, 40) };
         let p = build_resp(ctx, method, &spec);
         if !matches!(p.truth, RF::DontCare | RF::Error) {
@@ -48,6 +48,17 @@ fn gen_final(ctx: &mut Ctx, method: &str) -> RespPlan {
 pub fn c09(ctx: &mut Ctx) -> R {
     set_observed(false);
     let mut cfg = gen_valid_req(ctx, true, true);
+    if ctx.chance(1, 4) {
+        // credentials on the original request (a redirect suppresses them), also as repeated fields
+        cfg.orig.push(("cookie".into(), b"a=1".to_vec()));
+        if ctx.flip() {
+            cfg.orig.push(("Cookie".into(), b"b=2".to_vec()));
+        }
+        if ctx.flip() {
+            cfg.orig.push(("authorization".into(), b"Basic eDp5".to_vec()));
+            cfg.orig.push(("Authorization".into(), b"Basic ejp3".to_vec()));
+        }
+    }
     // despite-method is applied by the walk itself in Prepare
     let want_despite = cfg.despite;
     cfg.despite = false;
@@ -234,7 +245,11 @@ pub fn c09(ctx: &mut Ctx) -> R {
                                     }
                                 }
                             }
-                            Err(ureq_proto::Error::OutputOverflow) => {}
+                            Err(ureq_proto::Error::OutputOverflow) => {
+                                if n >= 4096 {
+                                    fail!("C09.head_never_completes", if new_flow_cfg.is_some() { "redirected" } else { "" }, "a 4096-byte buffer holds any line of this request, yet write() reports output overflow (head so far: {:?})", show_bytes(&wire));
+                                }
+                            }
                             Err(e) => {
                                 if new_flow_cfg.is_some() {
                                     // a redirected request may be one that C17 refuses (inherited framing header)
